@@ -14,6 +14,7 @@ use crate::corpus::*;
 use crate::ctx::*;
 use crate::rng::Rng;
 use crate::spec::*;
+use crate::model::real_count;
 
 /// `pat_debug` names: unique, delimiter-terminated so that no name is a substring of another.
 pub fn pat_name(uid: u16) -> &'static str {
@@ -95,14 +96,15 @@ impl MacroInputs for DbgArg {
     fn table<F: for<'i> MockFn<Inputs<'i> = DbgArg>>(pred: u32) -> Option<&'static dyn Fn(&mut Matching<F>)> {
         Some(match pred & 0xf {
             0x0 => matching!((DbgArg(x)) if *x > 200),
-            0x1 => matching!(DbgArg(0)),
-            0x2 => matching!(DbgArg(1)),
+            // struct patterns (named-field syntax): the macro renders them without their fields
+            0x1 => matching!(DbgArg { 0: 0 }),
+            0x2 => matching!(DbgArg { 0: 1 }),
             0x3 => matching!(DbgArg(0 | 1)),
-            0x4 => matching!(DbgArg(2)),
+            0x4 => matching!(DbgArg { 0: 2 }),
             0x5 => matching!(DbgArg(0) | DbgArg(2)),
             0x6 => matching!(DbgArg(1..=2)),
             0x7 => matching!(DbgArg(0..=2)),
-            0x8 => matching!(DbgArg(3)),
+            0x8 => matching!(DbgArg { 0: 3 }),
             0x9 => matching!(DbgArg(0 | 3)),
             0xa => matching!(DbgArg(1) | DbgArg(3)),
             0xb => matching!((DbgArg(x)) if *x != 2),
@@ -159,7 +161,12 @@ macro_rules! shape {
                     } else if has {
                         m.func(move |$iv: &$inputs, _| matcher_body(uid, pred, $idx));
                     }
-                    m.pat_debug(pat_name(uid), "cfg", uid as u32);
+                    // (patterns of the Debug-rendered argument type that come from the real macro keep the
+                    // macro's own rendering: they are only used where every call is answered)
+                    let keep_macro_text = macro_form && std::any::TypeId::of::<$inputs>() == std::any::TypeId::of::<DbgArg>();
+                    if !keep_macro_text {
+                        m.pat_debug(pat_name(uid), "cfg", uid as u32);
+                    }
                 }
             }
 
@@ -219,11 +226,11 @@ macro_rules! shape {
                 match (st, q) {
                     (st, Quant::Unq) => st,
                     (St::Qrv(b), Quant::Once) => St::Exact(b.once()),
-                    (St::Qrv(b), Quant::N(n)) => St::Exact(b.n_times(n as usize)),
-                    (St::Qrv(b), Quant::AtLeast(n)) => St::AtLeast(b.at_least_times(n as usize)),
+                    (St::Qrv(b), Quant::N(n)) => St::Exact(b.n_times(real_count(n))),
+                    (St::Qrv(b), Quant::AtLeast(n)) => St::AtLeast(b.at_least_times(real_count(n))),
                     (St::Q(b), Quant::Once) => St::Exact(b.once()),
-                    (St::Q(b), Quant::N(n)) => St::Exact(b.n_times(n as usize)),
-                    (St::Q(b), Quant::AtLeast(n)) => St::AtLeast(b.at_least_times(n as usize)),
+                    (St::Q(b), Quant::N(n)) => St::Exact(b.n_times(real_count(n))),
+                    (St::Q(b), Quant::AtLeast(n)) => St::AtLeast(b.at_least_times(real_count(n))),
                     _ => panic!("bad chain: quantifier after a quantified response"),
                 }
             }
@@ -232,9 +239,9 @@ macro_rules! shape {
                 match (st, q) {
                     (st, Quant::Unq) => st,
                     (St::Qrv(b), Quant::Once) => St::Exact(b.once()),
-                    (St::Qrv(b), Quant::N(n)) => St::Exact(b.n_times(n as usize)),
+                    (St::Qrv(b), Quant::N(n)) => St::Exact(b.n_times(real_count(n))),
                     (St::Q(b), Quant::Once) => St::Exact(b.once()),
-                    (St::Q(b), Quant::N(n)) => St::Exact(b.n_times(n as usize)),
+                    (St::Q(b), Quant::N(n)) => St::Exact(b.n_times(real_count(n))),
                     _ => panic!("bad chain: ordered patterns take exact counts only"),
                 }
             }
@@ -428,7 +435,7 @@ fn clause_for(spec: &ClauseSpec, uids: &[u16]) -> DynClause {
         M::GpU8 => opaque::clause_u8(|| GenMMock::gp.with_types::<u8>(), spec, uids),
         M::GpU16 => opaque::clause_u16(|| GenMMock::gp.with_types::<u16>(), spec, uids),
         other @ (M::LendA | M::LendB | M::LendMut | M::Lent | M::LendClone | M::LendGuard | M::LendVia | M::LendViaMut | M::LendZ | M::OwnSingle | M::OwnMulti
-        | M::OwnOpt | M::OwnRes | M::OwnTup | M::OwnTup1 | M::OwnVec | M::OwnTup3 | M::OwnDeepOpt | M::OwnDeepPoll | M::OwnPollMulti | M::OwnOptMulti | M::TermReport) => {
+        | M::OwnOpt | M::OwnRes | M::OwnTup | M::OwnTup1 | M::OwnVec | M::OwnTup3 | M::OwnDeepOpt | M::OwnDeepPoll | M::OwnPollMulti | M::OwnOptMulti | M::OwnUnit | M::TermReport) => {
             panic!("{other:?} is configured through Config::specials")
         }
         M::Af => ref1::clause(AsyncAMock::af, spec, uids),
@@ -490,7 +497,7 @@ mod opaque {
                         let dr = f.next_call(&matcher);
                         match (&seg.resp, seg.quant) {
                             (Resp::Returns, Quant::N(n)) => {
-                                DynClause::new(dr.returns(ret_token(uid, 0)).n_times(n as usize))
+                                DynClause::new(dr.returns(ret_token(uid, 0)).n_times(real_count(n)))
                             }
                             _ => DynClause::new(dr.returns(ret_token(uid, 0))),
                         }
@@ -511,8 +518,8 @@ mod opaque {
                             _ => dmr.returns(ret_token(uid, 0)),
                         };
                         match seg.quant {
-                            Quant::N(n) => DynClause::new(q.n_times(n as usize)),
-                            Quant::AtLeast(n) => DynClause::new(q.at_least_times(n as usize)),
+                            Quant::N(n) => DynClause::new(q.n_times(real_count(n))),
+                            Quant::AtLeast(n) => DynClause::new(q.at_least_times(real_count(n))),
                             Quant::Once => DynClause::new(q.once()),
                             Quant::Unq => DynClause::new(q),
                         }
@@ -606,8 +613,8 @@ fn quantified<F: MockFn + 'static>(q: Quantify<'static, F, InAnyOrder>, quant: Q
     match quant {
         Quant::Unq => DynClause::new(q),
         Quant::Once => DynClause::new(q.once()),
-        Quant::N(n) => DynClause::new(q.n_times(n as usize)),
-        Quant::AtLeast(n) => DynClause::new(q.at_least_times(n as usize)),
+        Quant::N(n) => DynClause::new(q.n_times(real_count(n))),
+        Quant::AtLeast(n) => DynClause::new(q.at_least_times(real_count(n))),
     }
 }
 
@@ -673,8 +680,8 @@ fn special_clause(sp: &Special) -> DynClause {
             } else {
                 let qrv = OwnMock::own_multi.some_call(matching!(_)).returns(value);
                 match quant {
-                    Quant::AtLeast(n) => DynClause::new(qrv.at_least_times(*n as usize)),
-                    Quant::N(n) => DynClause::new(qrv.n_times(*n as usize)),
+                    Quant::AtLeast(n) => DynClause::new(qrv.at_least_times(real_count(*n))),
+                    Quant::N(n) => DynClause::new(qrv.n_times(real_count(*n))),
                     _ => DynClause::new(qrv.n_times(2)),
                 }
             }
@@ -721,6 +728,7 @@ fn special_clause(sp: &Special) -> DynClause {
         ),
         #[cfg(not(feature = "stdworld"))]
         Special::MockedReport { .. } => DynClause::new(()),
+        Special::OwnUnit { .. } => DynClause::new(OwnMock::own_unit.some_call(matching!(_)).returns(())),
         Special::OwnOptMulti { quant, id } => quantified(
             OwnMock::own_opt_multi
                 .each_call(matching!(_))
